@@ -85,6 +85,7 @@ class SrcStream:
 class DestStream:
     def __init__(self, env, ti, seekable, fault_at):
         self.env, self.ti, self._seekable, self.fault_at = env, ti, seekable, fault_at
+        self.fault_kind = 'plain'
         self.buf = bytearray()
         self.pos = 0
         self.nwrites = 0
@@ -113,7 +114,7 @@ class DestStream:
         self.nwrites += 1
         try:
             if self.fault_at is not None and k == self.fault_at:
-                exc = InjectedFault('dest-write-%d' % self.ti)
+                exc = make_local_fault(self.fault_kind, 'dest-write-%d' % self.ti)
                 self.env.fired(self.ti, 'dest-write', exc)
                 raise exc
             if len(self.buf) < self.pos:
@@ -281,8 +282,9 @@ class Env:
         self.sch.point(('fs', op))
         n = self.fs_counts.get(op, 0)
         self.fs_counts[op] = n + 1
-        if can_fail and self.fs_faults.pop((op, n), None):
-            exc = OSError('injected-fs-%s-%d' % (op, n))
+        kind = self.fs_faults.pop((op, n), None) if can_fail else None
+        if kind:
+            exc = make_local_fault(kind if kind is not True else 'plain', 'injected-fs-%s-%d' % (op, n), base=OSError)
             exc.tag = 'fs'
             ti = self.transfer_of_path(name)
             self.fired(ti, 'fs-' + op, exc)
@@ -310,6 +312,25 @@ class Env:
                                                 'have_len': None if cur is None else len(cur),
                                                 'object_len': len(obj),
                                                 'previous_len': None if prev is None else len(prev)})
+
+
+# A failure of the destination (stream write, file open/write/close/rename) is a local error, whatever
+# its Python type: some of these types also occur as network errors (BrokenPipeError is a
+# ConnectionError, socket.timeout), which must not make the library treat them as retryable.
+LOCAL_FAULT_KINDS = ['plain', 'plain', 'brokenpipe', 'timeout']
+
+
+def make_local_fault(kind, tag, base=None):
+    import socket
+    if kind == 'brokenpipe':
+        e = BrokenPipeError(32, 'injected:%s' % tag)
+    elif kind == 'timeout':
+        e = socket.timeout('injected:%s' % tag)
+    elif base is not None:
+        e = base('injected:%s' % tag)
+    else:
+        e = InjectedFault(tag)
+    return e
 
 
 # --------------------------------------------------------------------------- scenario generation
@@ -371,16 +392,19 @@ def gen_scenario(rng, focus=None):
                                                              'create_multipart_upload', 'upload_part', 'upload_part_copy',
                                                              'complete_multipart_upload', 'copy_object', 'delete_object',
                                                              'abort_multipart_upload']),
-                           'nth': rng.choice([0, 0, 1, 2]), 'when': rng.choice(['before', 'after'])})
+                           'nth': rng.choice([0, 0, 1, 2]), 'when': rng.choice(['before', 'after']),
+                           'exc_kind': rng.choice(['plain', 'plain', 'conn'])})
         elif r < 0.7:
             faults.append({'site': 'body', 'nth_get': rng.choice([0, 0, 1, 2, 3]), 'after': rng.randrange(0, 6),
                            'kind': rng.choice(['retryable', 'retryable', 'retryable', 'fatal'])})
         elif r < 0.8:
             faults.append({'site': 'src-read', 'transfer': rng.randrange(nt), 'nth': rng.randrange(0, 4)})
         elif r < 0.87:
-            faults.append({'site': 'dest-write', 'transfer': rng.randrange(nt), 'nth': rng.randrange(0, 4)})
+            faults.append({'site': 'dest-write', 'transfer': rng.randrange(nt), 'nth': rng.randrange(0, 4),
+                           'exc_kind': rng.choice(LOCAL_FAULT_KINDS)})
         else:
-            faults.append({'site': 'fs', 'op': rng.choice(['open', 'write', 'close', 'rename']), 'nth': rng.choice([0, 0, 1])})
+            faults.append({'site': 'fs', 'op': rng.choice(['open', 'write', 'close', 'rename']), 'nth': rng.choice([0, 0, 1]),
+                           'exc_kind': rng.choice(LOCAL_FAULT_KINDS)})
     cancel = None
     r = rng.random()
     if r < 0.22:
@@ -392,7 +416,7 @@ def gen_scenario(rng, focus=None):
     elif r < 0.42:
         cancel = {'kind': 'interrupt-result', 'nth_wait': rng.choice([0, 0, 1])}
     sc = {'cfg': cfg, 'transfers': transfers, 'faults': faults, 'cancel': cancel,
-          'mode': rng.choice(['uniform', 'sticky', 'sticky', 'pct']), 'sched_seed': rng.randrange(1 << 30),
+          'mode': rng.choice(['uniform', 'sticky', 'sticky', 'pct', 'stall', 'stall']), 'sched_seed': rng.randrange(1 << 30),
           'fresh_after': rng.random() < 0.3}
     # shutdown() without cancel while transfers are still in flight: the barrier itself
     if cancel is None and rng.random() < 0.25:
@@ -438,7 +462,7 @@ def _unpatch_adjuster(saved):
 
 def run_scenario(sc, schedule=None, keep_trace=False, observe=False):
     tmpdir = tempfile.mkdtemp(prefix='s3v-ex-')
-    sch = Scheduler(seed=sc['sched_seed'], mode=sc['mode'], schedule=schedule, max_steps=60000)
+    sch = Scheduler(seed=sc['sched_seed'], mode=sc['mode'], schedule=schedule, max_steps=60000, stall=sc.get('stall'))
     sch.keep_trace = keep_trace
     env = Env(sch, sc, tmpdir)
     run = Run()
@@ -535,7 +559,12 @@ def _run_inner2(sc, sch, sh, env, run):
     cfg = sc['cfg']
     req_faults = [dict(f) for f in sc['faults'] if f['site'] == 'req']
     for f in req_faults:
-        f['exc'] = (lambda f=f: InjectedFault('req-%s-%d-%s' % (f['op'], f['nth'], f['when'])))
+        if f.get('exc_kind') == 'conn':
+            # a connection-level error: retryable by the library only where the property says so
+            # (the GetObject call of a download attempt), an ordinary failure everywhere else
+            f['exc'] = (lambda f=f: retryable_error('conn', 'req-%s-%d-%s' % (f['op'], f['nth'], f['when'])))
+        else:
+            f['exc'] = (lambda f=f: InjectedFault('req-%s-%d-%s' % (f['op'], f['nth'], f['when'])))
     fake = FakeS3(fault_plan=FaultPlan(req_faults), hook=lambda what, info: sch.point((what, info)))
     fake.clock = sch.tick
     run.fake = fake
@@ -571,7 +600,7 @@ def _run_inner2(sc, sch, sh, env, run):
     fake.get_script_fn = script_fn
     for f in sc['faults']:
         if f['site'] == 'fs':
-            env.fs_faults[(f['op'], f['nth'])] = True
+            env.fs_faults[(f['op'], f['nth'])] = f.get('exc_kind', 'plain')
     sch.on_point = (lambda th, label: env.watch_paths()) if any(
         t.get('dest') == 'path' for t in sc['transfers']) else None
 
@@ -605,6 +634,8 @@ def _run_inner2(sc, sch, sh, env, run):
                 env.path_watch.append((p, prev, data, ti))
             else:
                 sp['fileobj'] = DestStream(env, ti, t['dest'] == 'seekable', dst_fault)
+                sp['fileobj'].fault_kind = next((f.get('exc_kind', 'plain') for f in sc['faults']
+                                                 if f['site'] == 'dest-write' and f['transfer'] == ti), 'plain')
         elif t['kind'] == 'copy':
             fake.objects[('sb', 'src%d' % ti)] = data
         elif t['kind'] == 'delete':
